@@ -788,3 +788,140 @@ Proof.
     apply orb_true_iff in Sg. destruct Sg as [Q|Q]; apply Ascii.eqb_eq in Q; subst c; reflexivity.
   - destruct (digits_val (c :: r) 0) as [v|] eqn:D; [|discriminate]. intros _. exact (digits_val_ascii _ _ _ D).
 Qed.
+
+(* ------------------------------------------------------------------ strings.Fields *)
+(* the three unfoldings of [fields_go_aux] at a non-empty string *)
+Lemma fields_go_aux_sp c r cur :
+  is_space c = true -> fields_go_aux (c :: r) cur = flush_field cur (fields_go_aux r []).
+Proof. intros H. cbn [fields_go_aux]. rewrite H. reflexivity. Qed.
+
+(* a byte that is neither a blank nor the beginning of a Unicode space joins the current field *)
+Lemma fields_go_aux_step c r cur :
+  is_space c = false -> starts_with_uspace (c :: r) = false ->
+  fields_go_aux (c :: r) cur = fields_go_aux r (c :: cur).
+Proof.
+  intros Hc Hu. cbn [fields_go_aux]. rewrite Hc.
+  destruct r as [|c2 r2]; [reflexivity|].
+  unfold starts_with_uspace, uprefix in Hu. apply orb_false_iff in Hu. destruct Hu as [H2 H3]. rewrite H2.
+  destruct r2 as [|c3 r3]; [reflexivity|]. rewrite H3. reflexivity.
+Qed.
+
+(* a Unicode space ends the current field; the scan goes on behind it *)
+Lemma fields_go_aux_usp c r cur :
+  is_space c = false -> starts_with_uspace (c :: r) = true ->
+  exists w r', r = w ++ r' /\ fields_go_aux (c :: r) cur = flush_field cur (fields_go_aux r' []).
+Proof.
+  intros Hc Hu. cbn [fields_go_aux]. rewrite Hc. unfold starts_with_uspace, uprefix in Hu.
+  destruct r as [|c2 r2]; [discriminate Hu|].
+  destruct (usp2 c c2) eqn:E2.
+  - exists [c2], r2. split; reflexivity.
+  - cbn [orb] in Hu. destruct r2 as [|c3 r3]; [discriminate Hu|]. rewrite Hu.
+    exists [c2; c3], r3. split; reflexivity.
+Qed.
+
+(* without Unicode-space sequences, strings.Fields is the ASCII split *)
+Lemma fields_go_aux_no_usp s : forall cur, no_usp s = true -> fields_go_aux s cur = fields_aux s cur.
+Proof.
+  induction s as [|c r IH]; intros cur H.
+  - destruct cur; reflexivity.
+  - cbn [no_usp] in H. apply andb_true_iff in H. destruct H as [Hu Hr]. apply negb_true_iff in Hu.
+    destruct (is_space c) eqn:Ec.
+    + rewrite fields_go_aux_sp by exact Ec. cbn [fields_aux]. rewrite Ec, (IH [] Hr). destruct cur; reflexivity.
+    + rewrite fields_go_aux_step by assumption. cbn [fields_aux]. rewrite Ec. apply IH, Hr.
+Qed.
+Theorem fields_go_no_usp s : no_usp s = true -> fields_go s = fields s.
+Proof. apply fields_go_aux_no_usp. Qed.
+
+Lemma no_usp_ascii s : forallb is_ascii s = true -> no_usp s = true.
+Proof.
+  induction s as [|c r IH]; [reflexivity|]. cbn [forallb no_usp]. intros H.
+  apply andb_true_iff in H. destruct H as [Hc Hr].
+  rewrite (starts_with_uspace_ascii (c :: r)) by exact Hc. exact (IH Hr).
+Qed.
+Theorem fields_go_ascii s : forallb is_ascii s = true -> fields_go s = fields s.
+Proof. intros H. apply fields_go_no_usp, no_usp_ascii, H. Qed.
+
+Lemma no_usp_tail c s : no_usp (c :: s) = true -> no_usp s = true.
+Proof. cbn [no_usp]. intros H. apply andb_true_iff in H. exact (proj2 H). Qed.
+Lemma no_usp_suffix a b : no_usp (a ++ b) = true -> no_usp b = true.
+Proof. induction a as [|x a IH]; [trivial|]. intros H. apply IH. exact (no_usp_tail _ _ H). Qed.
+
+(* an ASCII byte between two strings: no sequence spans it *)
+Lemma no_usp_app_ascii a c b :
+  no_usp a = true -> is_ascii c = true -> no_usp b = true -> no_usp (a ++ c :: b) = true.
+Proof.
+  intros Ha Hc Hb. induction a as [|x a IH].
+  - cbn [app no_usp]. rewrite (starts_with_uspace_ascii (c :: b)) by exact Hc. exact Hb.
+  - cbn [no_usp] in Ha. apply andb_true_iff in Ha. destruct Ha as [Hx Ha]. apply negb_true_iff in Hx.
+    change ((x :: a) ++ c :: b) with (x :: (a ++ c :: b)). cbn [no_usp]. rewrite (IH Ha), andb_true_r.
+    apply negb_true_iff. unfold starts_with_uspace, uprefix in *.
+    destruct a as [|y [|z a]]; cbn [app] in *.
+    + rewrite (p2_ascii_r _ _ usp_nonascii) by exact Hc.
+      destruct b; [reflexivity|]. rewrite (p3_ascii_2 _ _ usp_nonascii) by exact Hc. reflexivity.
+    + rewrite orb_false_r in Hx. rewrite Hx. rewrite (p3_ascii_3 _ _ usp_nonascii) by exact Hc. reflexivity.
+    + exact Hx.
+Qed.
+Lemma no_usp_app_ascii_l a b : forallb is_ascii a = true -> no_usp b = true -> no_usp (a ++ b) = true.
+Proof.
+  intros Ha Hb. induction a as [|x a IH]; [exact Hb|]. cbn [forallb] in Ha.
+  apply andb_true_iff in Ha. destruct Ha as [Hx Ha]. cbn [app no_usp].
+  rewrite (starts_with_uspace_ascii (x :: a ++ b)) by exact Hx. exact (IH Ha).
+Qed.
+
+Lemma no_usp_ascii_F s : Forall (fun c => is_ascii c = true) s -> no_usp s = true.
+Proof. intros H. apply no_usp_ascii, forallb_forall. apply Forall_forall. exact H. Qed.
+Lemma no_usp_app_ascii_r a b : no_usp a = true -> forallb is_ascii b = true -> no_usp (a ++ b) = true.
+Proof.
+  intros Ha Hb. destruct b as [|c b]; [rewrite app_nil_r; exact Ha|].
+  cbn [forallb] in Hb. apply andb_true_iff in Hb. destruct Hb as [Hc Hb].
+  apply no_usp_app_ascii; [exact Ha|exact Hc|apply no_usp_ascii, Hb].
+Qed.
+(* "a SP b": two blank-free non-empty words without Unicode spaces *)
+Lemma fields_go_two_words a b : no_usp a = true -> no_usp b = true ->
+  fields_go (a ++ " "%char :: b) = fields (a ++ " "%char :: b).
+Proof. intros Ha Hb. apply fields_go_no_usp, no_usp_app_ascii; [exact Ha|reflexivity|exact Hb]. Qed.
+
+(* every field is non-empty and free of ASCII white space *)
+Lemma fields_go_aux_spec s : forall cur, no_space cur ->
+  Forall (fun f => f <> [] /\ no_space f) (fields_go_aux s cur).
+Proof.
+  induction s as [s IH] using bytes_ind_len. intros cur Hc.
+  assert (FL : forall k, Forall (fun f => f <> [] /\ no_space f) k ->
+                         Forall (fun f => f <> [] /\ no_space f) (flush_field cur k)).
+  { intros k Hk. destruct cur as [|x cur']; [exact Hk|]. cbn [flush_field]. constructor; [|exact Hk]. split.
+    - intros E. apply (f_equal (@List.length _)) in E. rewrite rev_length in E. discriminate E.
+    - intros d Hd. apply Hc. apply in_rev. exact Hd. }
+  assert (NS : no_space []) by (intros d []).
+  destruct s as [|c r]; [cbn [fields_go_aux]; apply FL; constructor|].
+  destruct (is_space c) eqn:Ec.
+  - rewrite fields_go_aux_sp by exact Ec. apply FL, IH; [cbn [List.length]; lia|exact NS].
+  - destruct (starts_with_uspace (c :: r)) eqn:Eu.
+    + destruct (fields_go_aux_usp c r cur Ec Eu) as (w & r' & -> & ->).
+      apply FL, IH; [cbn [List.length]; rewrite app_length; lia|exact NS].
+    + rewrite fields_go_aux_step by assumption. apply IH; [cbn [List.length]; lia|].
+      intros d [<-|Hd]; [exact Ec|exact (Hc d Hd)].
+Qed.
+Theorem fields_go_spec s f : In f (fields_go s) -> f <> [] /\ no_space f.
+Proof.
+  intros H. pose proof (fields_go_aux_spec s [] (fun d (F : In d []) => match F with end)) as A.
+  rewrite Forall_forall in A. exact (A f H).
+Qed.
+Theorem fields_go_nonempty s : Forall (fun f => f <> []) (fields_go s).
+Proof. apply Forall_forall. intros f H. exact (proj1 (fields_go_spec s f H)). Qed.
+
+(* examples (strings.Fields of go1.23) *)
+Example fields_go_ex1 : fields_go (s2b "a b") = [s2b "a"; s2b "b"] /\ fields_go (s2b " a  b ") = [s2b "a"; s2b "b"].
+Proof. vm_compute. split; reflexivity. Qed.
+Example fields_go_ex2 :    (* U+00A0; U+0085 followed by U+3000 *)
+  fields_go (map ascii_of_nat [97;194;160;98]) = [s2b "a"; s2b "b"] /\
+  fields_go (map ascii_of_nat [97;194;133;227;128;128;98]) = [s2b "a"; s2b "b"].
+Proof. vm_compute. split; reflexivity. Qed.
+Example fields_go_ex3 :    (* a lone A0 and U+200B are not white space: one field *)
+  fields_go (map ascii_of_nat [97;160;98]) = [map ascii_of_nat [97;160;98]] /\
+  fields_go (map ascii_of_nat [97;226;128;139;98]) = [map ascii_of_nat [97;226;128;139;98]].
+Proof. vm_compute. split; reflexivity. Qed.
+Example fields_go_ex4 : fields_go (map ascii_of_nat [226;128;128]) = [] /\ fields_go [] = [].
+Proof. vm_compute. split; reflexivity. Qed.
+Example fields_go_ex5 :    (* the ASCII split keeps them together *)
+  fields (map ascii_of_nat [97;194;160;98]) = [map ascii_of_nat [97;194;160;98]].
+Proof. vm_compute. reflexivity. Qed.
